@@ -32,7 +32,34 @@ _CATS = {
 }
 
 
+_ICASE_CACHE = {}
+
+
+def _icase_ranges(items, flags):
+    """code points a character class matches under re.IGNORECASE: asked of the real `re` engine, one code point at a
+    time (its case-folding tables are not re-implemented), cached per class text and flags"""
+    parts = []
+    for op, av in items:
+        if op is sre_c.NEGATE:
+            parts.append("^")
+        elif op is sre_c.LITERAL:
+            parts.append(re.escape(chr(av)))
+        elif op is sre_c.RANGE:
+            parts.append(re.escape(chr(av[0])) + "-" + re.escape(chr(av[1])))
+        elif op is sre_c.CATEGORY:
+            parts.append(_CATS[av])
+        else:
+            raise Unmodelled(f"regex class item {op}")
+    key = ("[" + "".join(parts) + "]", flags & (re.IGNORECASE | re.ASCII))
+    if key not in _ICASE_CACHE:
+        rx = re.compile(key[0], key[1])
+        _ICASE_CACHE[key] = ranges([c for c in range(0x110000) if rx.fullmatch(chr(c))])
+    return _ICASE_CACHE[key]
+
+
 def char_pred(x, items, flags):
+    if flags & re.IGNORECASE:
+        return z3.simplify(in_ranges(x, _icase_ranges(items, flags)))
     conds, negate = [], False
     cflags = flags & re.ASCII
     for op, av in items:
@@ -62,10 +89,12 @@ def rx_match(nodes, s, i, flags):
         for j, c in cur.items():
             if op is sre_c.LITERAL:
                 if j < len(s):
-                    put(j + 1, z3.And(c, in_ranges(zc(s[j]), [[av, av]])))
+                    lit = _icase_ranges([(sre_c.LITERAL, av)], flags) if flags & re.IGNORECASE else [[av, av]]
+                    put(j + 1, z3.And(c, in_ranges(zc(s[j]), lit)))
             elif op is sre_c.NOT_LITERAL:
                 if j < len(s):
-                    put(j + 1, z3.And(c, z3.Not(in_ranges(zc(s[j]), [[av, av]]))))
+                    lit = _icase_ranges([(sre_c.LITERAL, av)], flags) if flags & re.IGNORECASE else [[av, av]]
+                    put(j + 1, z3.And(c, z3.Not(in_ranges(zc(s[j]), lit))))
             elif op is sre_c.IN:
                 if j < len(s):
                     put(j + 1, z3.And(c, char_pred(zc(s[j]), av, flags)))
@@ -150,7 +179,7 @@ def model_re_match(pattern, flags, s, full=False):
         s = s.fix_widths()
     if isinstance(pattern, bytes):
         raise Unmodelled("bytes pattern")
-    if flags & ~(re.UNICODE | re.ASCII | re.DOTALL):
+    if flags & ~(re.UNICODE | re.ASCII | re.DOTALL | re.IGNORECASE):
         raise Unmodelled(f"regex flags {flags}")
     ends = rx_match(_parse(pattern, flags), s.p, 0, flags)
     if full:
